@@ -3,7 +3,7 @@
   `mseq` / `sseq` return the list of collected nodes in depth-first order; the grouped field set is `addSeq` of it.
 -/
 import PyGqlModel.Spec.ExecSpec
-import PyGqlModel.Props.C04_groups
+import PyGqlModel.Lemmas.C04Groups
 
 set_option linter.unusedSimpArgs false
 set_option linter.unusedVariables false
